@@ -626,18 +626,16 @@ Proof.
             |intros b Hb Hne; destruct b; cbn in *; try discriminate; try reflexivity; congruence]).
 Qed.
 
+(** a rejected value changes nothing at all *)
 Lemma set_attr_err a v s s' e :
   set_attr a v s = (s', Err e) ->
-  e = ValueErr /\ coord_ok a v = false /\
-  (forall b, same_pair a b = false -> own b s' = own b s) /\
-  (forall b, same_pair a b = true ->
-     own b s' = Some (match own b s with Some x => x | None => 0%Z end)).
+  e = ValueErr /\ coord_ok a v = false /\ s' = s.
 Proof.
-  unfold set_attr. destruct (coord_ok a v) eqn:E; intros H; inversion H; subst s' e; clear H.
-  split; [reflexivity|]. split; [reflexivity|].
-  destruct s as [i n p [[x y]|] [[w h]|] t]; destruct a; cbn;
-    (split; intros b Hb; destruct b; cbn in *; try discriminate; reflexivity).
+  unfold set_attr. destruct (coord_ok a v) eqn:E; intros H; inversion H; subst. auto.
 Qed.
+
+Lemma set_attr_rejected a v s : coord_ok a v = false -> set_attr a v s = (s, Err ValueErr).
+Proof. unfold set_attr. intros ->. reflexivity. Qed.
 
 (** * Notes slides *)
 Lemma memN_In c l : memN c l = true <-> In c l.
